@@ -120,6 +120,14 @@ def cli_contract(chk, pid, tier, seed):
         inputs.append(b"(" * n + b"1" + b")" * n)
         inputs.append(b"(" * n + b"1")
         inputs.append(b"1" + b" + 1" * (2 * n))
+    # arithmetic corner cases in TYPE positions: the checker normalises them (division by zero must stay a stuck term
+    # there, as it is at run time; big and negative operands)
+    for e in ("1 / 0", "(1 + 0) / 0", "0 / 0", "7 / (3 - 3)", "-7 / 2", "(0 - 7) / 2", "18446744073709551616 / 3",
+              "1 - 2", "2 * (0 - 3)", "5 / (0 - 2)"):
+        inputs.append(("x : (if %s == 0 then int else bool) = 5; x" % e).encode())
+        inputs.append(("((x : %s) => x) 1" % e).encode())
+        inputs.append(("p : ((q : int -> type) -> q (%s) -> q (%s + 0)) = q => h => h; p" % (e, e)).encode())
+        inputs.append(("v = (n : int) => if n == 0 then int else bool; y : v (%s) = 3; y" % e).encode())
     # recorded finding D19 (panic in normalize_weak_head: context index out of range)
     inputs.append(b"(f : type) => (z : (a : type) -> _) => ((w : (a : type) -> f) => w) z + z int")
     inputs = list(dict.fromkeys(inputs))
@@ -320,6 +328,17 @@ def families(n):
     f.append(("nested-difference-last", nest("1 - 2 - (", ")", "1 - 2 - 3")))
     f.append(("nested-quotient-middle", nest("1 * (", ") / 2", "1 / 2 * 3")))
     f.append(("nested-mixed-middle", nest("f (1 - (2 * (", ")) - 3) 4", "f 1 2")))
+    # a group of functions sharing helpers in a DAG, reached from one computed definition (the definition-order check walks
+    # the group: the number of PATHS is exponential, the number of definitions linear), and the same nested in a function
+    def dag(k):
+        ls = ["f0 : (int -> int) = x => x + 1", "f1 : (int -> int) = x => f0 x"]
+        for i in range(2, k):
+            ls.append("f%d : (int -> int) = x => f%d (f%d x)" % (i, i - 1, i - 2))
+        ls.append("r : int = f%d 0" % (k - 1))
+        ls.append("r")
+        return ls
+    f.append(("definitions-dag", "\n".join(dag(max(3, d)))))
+    f.append(("definitions-dag-nested", "g = (u : int) => (" + "; ".join(dag(max(3, d))) + "); g 1"))
     return f
 
 
